@@ -203,6 +203,16 @@ def main(argv=None):
     meta = getattr(mod, 'META', {})
     known_discharged_equiv = len({(ob['target'], ob['name']) for _, ob in known_hits})
     level = meta.get('level', 'proof')
+    expl = meta.get('explanation', '') or ('contracts on the real functions; verification conditions generated from the '
+                                          'AST of /repo on every run and discharged by z3 (cvc5 / z3-4.8 CLI for unknowns)')
+    if n_dis != n_ob:
+        # not every obligation is discharged (listed open findings, or this run found a
+        # violation / an undecided obligation): not a proof-level record
+        level = 'other'
+        expl += ('; %d of %d obligations discharged, %d refuted obligations are listed open findings '
+                 '(KNOWN-FINDING lines), %d new refutations, %d unknown' % (
+                     n_dis, n_ob, sum(1 for _, ob in refuted if match_known(known, prop, ob)),
+                     sum(1 for _, ob in refuted if not match_known(known, prop, ob)), len(unknown)))
     trusted = list(meta.get('trusted_base', [])) + \
         ['assumption flag ' + f for f in sorted(flags)] + \
         ['library contract (assumed): ' + l for l in sorted(lib_used)] + \
@@ -219,7 +229,7 @@ def main(argv=None):
         'unknown': len(unknown),
         'checker_cmd': './check %s --tier %s' % (prop, tier),
         'trusted_base': trusted,
-        'explanation': meta.get('explanation', ''),
+        'explanation': expl,
         'functions_under_contract': sorted(functions.values(), key=lambda f: f['name']),
         'targets': len(idxs), 'paths': sum(r.get('paths', 0) for r in results),
         'backends': backends, 'solver_seconds': round(solver_s, 3),
